@@ -1,6 +1,9 @@
-use std::fmt::{Error, Result as FmtResult, Write};
+use std::{
+    collections::HashSet,
+    fmt::{Error, Result as FmtResult, Write},
+};
 
-use async_graphql_value::ConstValue;
+use async_graphql_value::{ConstValue, Value};
 
 use crate::{
     Variables,
@@ -17,6 +20,7 @@ impl Registry {
         doc: &ExecutableDocument,
     ) -> Result<String, Error> {
         let mut output = String::new();
+        let secret_variables = self.secret_variables(doc);
         for (name, fragment) in &doc.fragments {
             self.stringify_fragment_definition(
                 &mut output,
@@ -50,7 +54,14 @@ impl Registry {
                             variable_definition.node.var_type.node
                         )?;
                         if let Some(default_value) = &variable_definition.node.default_value {
-                            write!(output, " = {}", default_value.node)?;
+                            output.push_str(" = ");
+                            self.stringify_typed_value(
+                                &mut output,
+                                secret_variables
+                                    .contains(variable_definition.node.name.node.as_str()),
+                                Some(&variable_definition.node.var_type.node.to_string()),
+                                &default_value.node,
+                            )?;
                         }
                     }
                     output.push(')');
@@ -102,23 +113,158 @@ impl Registry {
         Ok(())
     }
 
+    /// The variables that are used where a secret is expected, in an argument or
+    /// an input object field that is marked as secret. Their default values are
+    /// secrets as well.
+    fn secret_variables<'a>(&self, doc: &'a ExecutableDocument) -> HashSet<&'a str> {
+        let mut variables = HashSet::new();
+        for fragment in doc.fragments.values() {
+            self.collect_secret_variables(
+                &mut variables,
+                &fragment.node.selection_set.node,
+                self.types
+                    .get(fragment.node.type_condition.node.on.node.as_str()),
+            );
+        }
+        for (_, operation_definition) in doc.operations.iter() {
+            let root_type = match operation_definition.node.ty {
+                OperationType::Query => self.types.get(&self.query_type),
+                OperationType::Mutation => self
+                    .mutation_type
+                    .as_ref()
+                    .and_then(|name| self.types.get(name)),
+                OperationType::Subscription => self
+                    .subscription_type
+                    .as_ref()
+                    .and_then(|name| self.types.get(name)),
+            };
+            self.collect_secret_variables(
+                &mut variables,
+                &operation_definition.node.selection_set.node,
+                root_type,
+            );
+        }
+        variables
+    }
+
+    fn collect_secret_variables<'a>(
+        &self,
+        variables: &mut HashSet<&'a str>,
+        selection_set: &'a SelectionSet,
+        parent_type: Option<&MetaType>,
+    ) {
+        for selection in selection_set.items.iter().map(|s| &s.node) {
+            match selection {
+                Selection::Field(field) => {
+                    let meta_field = parent_type
+                        .and_then(|ty| ty.field_by_name(field.node.name.node.as_str()));
+                    for (name, argument) in &field.node.arguments {
+                        let meta_input_value =
+                            meta_field.and_then(|field| field.args.get(name.node.as_str()));
+                        self.collect_secret_variables_in_value(
+                            variables,
+                            meta_input_value.is_some_and(|v| v.is_secret),
+                            meta_input_value.map(|v| v.ty.as_str()),
+                            &argument.node,
+                        );
+                    }
+                    self.collect_secret_variables(
+                        variables,
+                        &field.node.selection_set.node,
+                        meta_field
+                            .and_then(|field| {
+                                self.types.get(MetaTypeName::concrete_typename(&field.ty))
+                            }),
+                    );
+                }
+                Selection::FragmentSpread(_) => {}
+                Selection::InlineFragment(inline_fragment) => {
+                    let parent_type = match &inline_fragment.node.type_condition {
+                        Some(name) => self.types.get(name.node.on.node.as_str()),
+                        None => parent_type,
+                    };
+                    self.collect_secret_variables(
+                        variables,
+                        &inline_fragment.node.selection_set.node,
+                        parent_type,
+                    );
+                }
+            }
+        }
+    }
+
+    fn collect_secret_variables_in_value<'a>(
+        &self,
+        variables: &mut HashSet<&'a str>,
+        is_secret: bool,
+        ty: Option<&str>,
+        value: &'a Value,
+    ) {
+        match value {
+            Value::Variable(name) => {
+                if is_secret {
+                    variables.insert(name.as_str());
+                }
+            }
+            Value::List(items) => {
+                for item in items {
+                    self.collect_secret_variables_in_value(variables, is_secret, ty, item);
+                }
+            }
+            Value::Object(obj) => {
+                let input_fields = match ty
+                    .and_then(|ty| self.types.get(MetaTypeName::concrete_typename(ty)))
+                {
+                    Some(MetaType::InputObject { input_fields, .. }) => Some(input_fields),
+                    _ => None,
+                };
+                for (key, value) in obj {
+                    let meta_input_value =
+                        input_fields.and_then(|fields| fields.get(key.as_str()));
+                    self.collect_secret_variables_in_value(
+                        variables,
+                        is_secret || meta_input_value.is_some_and(|v| v.is_secret),
+                        meta_input_value.map(|v| v.ty.as_str()),
+                        value,
+                    );
+                }
+            }
+            _ => {}
+        }
+    }
+
     fn stringify_input_value(
         &self,
         output: &mut String,
         meta_input_value: Option<&MetaInputValue>,
         value: &ConstValue,
     ) -> FmtResult {
-        if meta_input_value.map(|v| v.is_secret).unwrap_or_default() {
+        self.stringify_typed_value(
+            output,
+            meta_input_value.is_some_and(|v| v.is_secret),
+            meta_input_value.map(|v| v.ty.as_str()),
+            value,
+        )
+    }
+
+    /// Prints a value of the given input type, with everything that is marked
+    /// as secret replaced.
+    fn stringify_typed_value(
+        &self,
+        output: &mut String,
+        is_secret: bool,
+        ty: Option<&str>,
+        value: &ConstValue,
+    ) -> FmtResult {
+        if is_secret {
             output.push_str("\"<secret>\"");
             return Ok(());
         }
 
         match value {
             ConstValue::Object(obj) => {
-                let parent_type = meta_input_value.and_then(|input_value| {
-                    self.types
-                        .get(MetaTypeName::concrete_typename(&input_value.ty))
-                });
+                let parent_type =
+                    ty.and_then(|ty| self.types.get(MetaTypeName::concrete_typename(ty)));
                 if let Some(MetaType::InputObject { input_fields, .. }) = parent_type {
                     output.push('{');
                     for (idx, (key, value)) in obj.iter().enumerate() {
@@ -140,7 +286,7 @@ impl Registry {
                     if idx > 0 {
                         output.push_str(", ");
                     }
-                    self.stringify_input_value(output, meta_input_value, item)?;
+                    self.stringify_typed_value(output, false, ty, item)?;
                 }
                 output.push(']');
             }
